@@ -160,6 +160,10 @@ set_option linter.unusedSectionVars false
 section
 variable {K α : Type} [DecidableEq K] [Field α] [LinearOrder α] [IsStrictOrderedRing α] [Lit α] [LawfulLit α]
 
+@[simp] theorem predict_unit (r : PredRecord α) (c : Option (Cache K α)) (speed : α) (su : SpeedUnit)
+    (grade : α) (gu : GradeUnit) (d : α) (du : DistanceUnit) :
+    (r.predict c speed su grade gu d du).1.2 = r.rateUnit.associatedEnergyUnit := rfl
+
 /-! ### decomposition of the traversal -/
 
 theorem traverse_ok {eng : SpeedEngine α} {fu : FeatureUnits} {e : Edge α} {s s1 : VState α}
